@@ -823,7 +823,8 @@ theorem zip_completion_late :
     ∃ H, WellFormed 2 H ∧ zipRxCompletes 2 H = true ∧ Ev.complete ∉ zip.run 2 H :=
   ⟨[(0, .next (.int 1)), (1, .next (.int 10)), (0, .complete)], by decide, by decide, by decide⟩
 
-/-! ### combine_latest and sequence_equal: the code is NOT the ReactiveX operator -/
+/-! ### combine_latest: the code is NOT the ReactiveX operator (sequence_equal was one too — finding F10 — until
+its repair: see `sequence_equal_spec` below) -/
 
 /-- a1 a2 b10 b20 a3: ReactiveX emits [2,10] [2,20] [3,20]; the code (zip!) emits [1,10] [2,20] -/
 theorem combine_latest_violated :
@@ -838,13 +839,6 @@ example :
     combineLatestSpec 2
         [(0, .next (.int 1)), (0, .next (.int 2)), (1, .next (.int 10)), (1, .next (.int 20)), (0, .next (.int 3))] =
       [tupleEv [.int 2, .int 10], tupleEv [.int 2, .int 20], tupleEv [.int 3, .int 20]] := by decide
-
-/-- sources of different lengths (1 vs 1 2): ReactiveX says false, the code says true -/
-theorem sequence_equal_violated :
-    ∃ H, WellFormed 2 H ∧ sequenceEqualCode.run 2 H = [.next (.bool true), .complete] ∧
-      sequenceEqualSpec 2 H = [.next (.bool false), .complete] :=
-  ⟨[(0, .next (.int 1)), (1, .next (.int 1)), (1, .next (.int 2)), (0, .complete), (1, .complete)],
-    by decide, by decide, by decide⟩
 
 /-! ### skip_until -/
 
@@ -2142,28 +2136,6 @@ theorem zip_any_ne (a b : List Data) (hl : a.length = b.length) (hne : a ≠ b) 
         exact ih b (by simpa using hl) (fun e => hne (by rw [e]))
       · left; simpa using hxy
 
-/-- S2: equal item lists never look different on a prefix -/
-theorem mismatch_false_of_equal (k : Nat) (pre rest : History) (hwf : WellFormed k (pre ++ rest))
-    (heq : allItemsEqual k (pre ++ rest) = true) : mismatchKnown k pre = false := by
-  simp only [allItemsEqual, List.all_eq_true, List.mem_range, beq_iff_eq] at heq
-  rw [Bool.eq_false_iff]
-  intro hm
-  simp only [mismatchKnown, List.any_eq_true, List.mem_range, Bool.or_eq_true, Bool.and_eq_true,
-    decide_eq_true_eq] at hm
-  obtain ⟨i, hi, j, hj, hm⟩ := hm
-  have hij : srcItems i pre ++ srcItems i rest = srcItems j pre ++ srcItems j rest := by
-    rw [← srcItems_append, ← srcItems_append, heq i hi, heq j hj]
-  rcases hm with hm | ⟨hc, hlt⟩
-  · obtain ⟨xy, hxy, hne⟩ := hm
-    have := zip_common_prefix _ _ _ _ hij xy hxy
-    simp [this] at hne
-  · have hnil : srcItems i rest = [] :=
-      srcItems_eq_nil i rest (wf_after_complete _ pre rest i hwf hc)
-    rw [hnil, List.append_nil] at hij
-    have := congrArg List.length hij
-    simp only [List.length_append] at this
-    omega
-
 /-- S3: a well-formed history ends when every source has completed -/
 theorem not_allCompleted_of_more (k : Nat) (pre : History) (p : Nat × Ev) (rest : History)
     (hwf : WellFormed k (pre ++ p :: rest)) : allCompleted k pre = false := by
@@ -2172,90 +2144,6 @@ theorem not_allCompleted_of_more (k : Nat) (pre : History) (p : Nat × Ev) (rest
   have hp : p.1 < k := wellFormed_lt k _ hwf p (by simp)
   simp only [allCompleted, List.all_eq_true, List.mem_range] at hc
   exact wf_after_complete _ pre (p :: rest) p.1 hwf (hc p.1 hp) p (by simp) rfl
-
-/-- S4: different item lists of the same length differ at a common position -/
-theorem mismatch_true_of_ne (k N : Nat) (hk : 0 < k) (H : History)
-    (hlen : ∀ i, i < k → (srcItems i H).length = N) (hne : allItemsEqual k H = false) :
-    mismatchKnown k H = true := by
-  simp only [allItemsEqual, List.all_eq_false, List.mem_range, beq_iff_eq] at hne
-  obtain ⟨i, hi, hne⟩ := hne
-  simp only [mismatchKnown, List.any_eq_true, List.mem_range, Bool.or_eq_true]
-  refine ⟨i, hi, 0, hk, Or.inl ?_⟩
-  have := zip_any_ne _ _ (by rw [hlen i hi, hlen 0 hk]) hne
-  simpa using this
-
-theorem seqScan_equal (k : Nat) (pre rest : History) (hwf : WellFormed k (pre ++ rest))
-    (herr : firstError (pre ++ rest) = none) (hcomp : allCompleted k (pre ++ rest) = true)
-    (heq : allItemsEqual k (pre ++ rest) = true) :
-    seqScan k pre rest = [.next (.bool true), .complete] := by
-  induction rest generalizing pre with
-  | nil =>
-    have hm := mismatch_false_of_equal k pre [] hwf heq
-    simp only [List.append_nil] at herr hcomp
-    simp [seqScan, seqVerdict, herr, hm, hcomp]
-  | cons p rest ih =>
-    have hm := mismatch_false_of_equal k pre (p :: rest) hwf heq
-    have he := firstError_append_none _ _ herr
-    have hc := not_allCompleted_of_more k pre p rest hwf
-    simp only [seqScan, seqVerdict, he, hm, hc, Bool.false_eq_true, if_false]
-    have e : pre ++ p :: rest = (pre ++ [p]) ++ rest := by simp
-    rw [e] at hwf herr hcomp heq
-    exact ih _ hwf herr hcomp heq
-
-theorem seqScan_unequal (k : Nat) (pre rest : History) (hwf : WellFormed k (pre ++ rest))
-    (herr : firstError (pre ++ rest) = none) (hmis : mismatchKnown k (pre ++ rest) = true) :
-    seqScan k pre rest = [.next (.bool false), .complete] := by
-  induction rest generalizing pre with
-  | nil =>
-    simp only [List.append_nil] at herr hmis
-    simp [seqScan, seqVerdict, herr, hmis]
-  | cons p rest ih =>
-    have he := firstError_append_none _ _ herr
-    have hc := not_allCompleted_of_more k pre p rest hwf
-    simp only [seqScan, seqVerdict, he, hc, Bool.false_eq_true, if_false]
-    split
-    · rename_i v hv
-      split at hv
-      · simpa using hv.symm
-      · simp at hv
-    · have e : pre ++ p :: rest = (pre ++ [p]) ++ rest := by simp
-      rw [e] at hwf herr hmis
-      exact ih _ hwf herr hmis
-
-/-- region of agreement: error-free histories in which every source completes after the same number of
-    items.  There code and ReactiveX give the same verdict: `true` iff all item lists are equal.
-    (Full statement `∀ H, WellFormed k H → sequenceEqualCode.run k H = sequenceEqualSpec k H` is FALSE:
-    `sequence_equal_violated`.) -/
-theorem sequence_equal_same_length_partial (k N : Nat) (hk : 0 < k) (H : History) (hwf : WellFormed k H)
-    (herr : firstError H = none) (hcomp : allCompleted k H = true)
-    (hlen : ∀ i, i < k → (srcItems i H).length = N) :
-    sequenceEqualCode.run k H = sequenceEqualSpec k H ∧
-      sequenceEqualSpec k H = [.next (.bool (allItemsEqual k H)), .complete] := by
-  have hspec : sequenceEqualSpec k H = [.next (.bool (allItemsEqual k H)), .complete] := by
-    rw [sequenceEqualSpec]
-    cases heq : allItemsEqual k H with
-    | true => exact seqScan_equal k [] H hwf herr hcomp heq
-    | false => exact seqScan_unequal k [] H hwf herr (mismatch_true_of_ne k N hk H hlen heq)
-  refine ⟨?_, hspec⟩
-  rw [hspec, sequence_equal_code_eq, zip_spec k hk H hwf, zipSpec, beforeError_of_no_error H herr]
-  have hT : terminalOf (List.range k) H = [.complete] := by
-    simp only [terminalOf, herr]
-    simp only [allCompleted] at hcomp
-    simp [hcomp]
-  rw [hT, seqPost_rows]
-  have hne : columns k H ≠ [] := by
-    intro h0; have := congrArg List.length h0; simp [columns] at this; omega
-  rw [rows_allSame N (columns k H) hne (by
-    intro c hc
-    simp only [columns, List.mem_map, List.mem_range] at hc
-    obtain ⟨i, hi, rfl⟩ := hc
-    exact hlen i hi)]
-  have hhead : (columns k H).headD [] = srcItems 0 H := by
-    cases k with
-    | zero => omega
-    | succ n => simp [columns, List.range_succ_eq_map]
-  rw [hhead]
-  simp [columns, allItemsEqual, List.all_map, Function.comp_def]
 
 /-! #### combine_latest: where the code (zip) agrees with ReactiveX -/
 
@@ -2510,6 +2398,183 @@ theorem zip_timing (k : Nat) (hk : 0 < k) (H1 H2 : History) (hwf : WellFormed k 
   exact h1
 
 /-! ### non-vacuity: concrete well-formed histories satisfying the hypotheses, with their outputs -/
+/-! #### sequence_equal after the repair of F10: the sequences are zipped together with their end markers -/
+section SeqEq
+open sequenceEqual (withEnd endSome endNone)
+
+/-- the machine = the closures of `sequenceEqualCode` over zip, run on the history as zip's observers see it -/
+theorem se_run_withEnd (s : Over) (H : History) :
+    runFrom sequenceEqual.step s H = runFrom sequenceEqualCode.step s (withEnd H) := by
+  induction H generalizing s with
+  | nil => rfl
+  | cons p H ih =>
+    obtain ⟨i, ev⟩ := p
+    cases ev with
+    | next d => simp only [runFrom, withEnd, sequenceEqual.step, ih]
+    | error e => simp only [runFrom, withEnd, sequenceEqual.step, ih]
+    | complete => simp only [runFrom, withEnd, sequenceEqual.step, ih, List.append_assoc]
+
+theorem sequence_equal_run_eq (k : Nat) (H : History) :
+    sequenceEqual.run k H = sequenceEqualCode.run k (withEnd H) := se_run_withEnd _ H
+
+theorem withEnd_wf (R : List Nat) (H : History) (h : wfFrom R H = true) : wfFrom R (withEnd H) = true := by
+  induction H generalizing R with
+  | nil => rfl
+  | cons p H ih =>
+    obtain ⟨i, ev⟩ := p
+    rw [wf_cons] at h
+    simp only [Bool.and_eq_true] at h
+    cases ev with
+    | next d => simp only [withEnd, wf_cons, Ev.isTerminal, Bool.and_eq_true]; exact ⟨h.1, ih _ h.2⟩
+    | error e => simp only [withEnd, wf_cons, Ev.isTerminal, Bool.and_eq_true]; exact ⟨h.1, ih _ h.2⟩
+    | complete =>
+      simp only [withEnd, wf_cons, Ev.isTerminal, Bool.and_eq_true, Bool.false_eq_true, ↓reduceIte]
+      exact ⟨h.1, h.1, ih _ h.2⟩
+
+theorem beforeError_withEnd (H : History) : beforeError (withEnd H) = withEnd (beforeError H) := by
+  induction H with
+  | nil => rfl
+  | cons p H ih =>
+    obtain ⟨i, ev⟩ := p
+    cases ev with
+    | next d => simp [withEnd, beforeError_cons, Ev.isError, ih]
+    | error e => simp [withEnd, beforeError_cons, Ev.isError]
+    | complete => simp [withEnd, beforeError_cons, Ev.isError, ih]
+
+theorem firstError_withEnd (H : History) : firstError (withEnd H) = firstError H := by
+  induction H with
+  | nil => rfl
+  | cons p H ih =>
+    obtain ⟨i, ev⟩ := p
+    cases ev <;> simp [withEnd, firstError_cons, ih]
+
+theorem next_beq_complete (d : Data) : (Ev.next d == Ev.complete) = false := by
+  rw [beq_eq_false_iff_ne]; exact fun h => nomatch h
+
+theorem completedIn_withEnd (H : History) (j : Nat) : completedIn (withEnd H) j = completedIn H j := by
+  induction H with
+  | nil => rfl
+  | cons p H ih =>
+    obtain ⟨i, ev⟩ := p
+    cases ev <;> simp [withEnd, completedIn_cons, ih, next_beq_complete]
+
+theorem terminalOf_withEnd (R : List Nat) (H : History) : terminalOf R (withEnd H) = terminalOf R H := by
+  have : completedIn (withEnd H) = completedIn H := funext (completedIn_withEnd H)
+  simp only [terminalOf, firstError_withEnd, this]
+
+theorem withEnd_src (H : History) : ∀ p ∈ withEnd H, ∃ q ∈ H, q.1 = p.1 := by
+  induction H with
+  | nil => intro p hp; cases hp
+  | cons q H ih =>
+    obtain ⟨i, ev⟩ := q
+    intro p hp
+    cases ev with
+    | next d =>
+      simp only [withEnd, List.mem_cons] at hp
+      rcases hp with rfl | hp
+      · exact ⟨(i, .next d), by simp, rfl⟩
+      · obtain ⟨q, hq, e⟩ := ih p hp; exact ⟨q, by simp [hq], e⟩
+    | error e =>
+      simp only [withEnd, List.mem_cons] at hp
+      rcases hp with rfl | hp
+      · exact ⟨(i, .error e), by simp, rfl⟩
+      · obtain ⟨q, hq, e⟩ := ih p hp; exact ⟨q, by simp [hq], e⟩
+    | complete =>
+      simp only [withEnd, List.mem_cons] at hp
+      rcases hp with rfl | rfl | hp
+      · exact ⟨(i, .complete), by simp, rfl⟩
+      · exact ⟨(i, .complete), by simp, rfl⟩
+      · obtain ⟨q, hq, e⟩ := ih p hp; exact ⟨q, by simp [hq], e⟩
+
+theorem completedIn_absent (H : History) (j : Nat) (h : ∀ p ∈ H, p.1 ≠ j) : completedIn H j = false := by
+  simp only [completedIn, List.any_eq_false, Bool.and_eq_true, beq_iff_eq, not_and]
+  intro p hp q; exact absurd q (h p hp)
+
+theorem endColumn_absent (H : History) (j : Nat) (h : ∀ p ∈ H, p.1 ≠ j) : endColumn j H = [] := by
+  simp [endColumn, srcItems_eq_nil j H h, completedIn_absent H j h]
+
+/-- what zip's observer `j` receives as items: the items of source `j`, then its end marker -/
+theorem srcItems_withEnd (R : List Nat) (H : History) (j : Nat) (h : wfFrom R H = true) :
+    srcItems j (withEnd H) = endColumn j H := by
+  induction H generalizing R with
+  | nil => rfl
+  | cons p H ih =>
+    obtain ⟨i, ev⟩ := p
+    rw [wf_cons] at h
+    simp only [Bool.and_eq_true] at h
+    have ih' := ih _ h.2
+    by_cases hij : i = j
+    · subst hij
+      cases ev with
+      | next d =>
+        simp only [withEnd, srcItems_cons, beq_self_eq_true, ↓reduceIte, ih', endColumn, completedIn_cons,
+          next_beq_complete, Bool.and_false, Bool.false_or, List.map_append, List.map_cons, List.map_nil,
+          List.append_assoc, endSome]
+      | error e =>
+        have hab : ∀ p ∈ H, p.1 ≠ i := wf_not_mem _ H i h.2 (by simp [Ev.isTerminal])
+        have hab' : ∀ p ∈ withEnd H, p.1 ≠ i := by
+          intro p hp; obtain ⟨q, hq, e⟩ := withEnd_src H p hp; rw [← e]; exact hab q hq
+        simp only [withEnd, srcItems_cons, beq_self_eq_true, ↓reduceIte, List.nil_append]
+        rw [srcItems_eq_nil i _ hab']
+        simp [endColumn, srcItems_cons, srcItems_eq_nil i H hab, completedIn_cons, completedIn_absent H i hab]
+      | complete =>
+        have hab : ∀ p ∈ H, p.1 ≠ i := wf_not_mem _ H i h.2 (by simp [Ev.isTerminal])
+        have hab' : ∀ p ∈ withEnd H, p.1 ≠ i := by
+          intro p hp; obtain ⟨q, hq, e⟩ := withEnd_src H p hp; rw [← e]; exact hab q hq
+        simp only [withEnd, srcItems_cons, beq_self_eq_true, ↓reduceIte, List.nil_append]
+        rw [srcItems_eq_nil i _ hab']
+        simp [endColumn, srcItems_cons, srcItems_eq_nil i H hab, completedIn_cons, endNone]
+    · have hb : (i == j) = false := by rw [beq_eq_false_iff_ne]; exact hij
+      cases ev with
+      | next d => simp [withEnd, srcItems_cons, hb, ih', endColumn, completedIn_cons]
+      | error e => simp [withEnd, srcItems_cons, hb, ih', endColumn, completedIn_cons]
+      | complete => simp [withEnd, srcItems_cons, hb, ih', endColumn, completedIn_cons]
+
+theorem columns_withEnd (k : Nat) (H : History) (h : WellFormed k H) :
+    columns k (withEnd H) = endColumns k H := by
+  simp only [columns, endColumns]
+  apply List.map_congr_left
+  intro j _
+  exact srcItems_withEnd _ H j h
+
+theorem seqPost_rows_then (rows : List (List Data)) (t : List Ev) :
+    seqPost (rows.map tupleEv ++ t) =
+      if rows.all rowSame then seqPost t else [.next (.bool false), .complete] := by
+  induction rows with
+  | nil => rfl
+  | cons r rows ih =>
+    have hrs : rowSame r = sequenceEqualCode.allSame r := rfl
+    simp only [List.map_cons, List.cons_append, tupleEv, seqPost, Data.toList_ofList, List.all_cons, hrs]
+    cases sequenceEqualCode.allSame r with
+    | true => simpa using ih
+    | false => simp
+
+theorem wellFormed_beforeError (k : Nat) (H : History) (h : WellFormed k H) : WellFormed k (beforeError H) := by
+  have : H = beforeError H ++ H.dropWhile (fun p => !p.2.isError) := by
+    simp only [beforeError, List.takeWhile_append_dropWhile]
+  rw [this] at h
+  exact wellFormed_prefix k _ _ h
+
+/-- **sequence_equal** (after the repair of F10): for every well-formed history over `k ≥ 1` hot sources the code is
+    the ReactiveX operator — `false, complete` at the first position, reached by every source, at which two
+    sequences (ends included) differ; the first error if it arrives before that; `true, complete` when all sources
+    have completed with equal sequences. -/
+theorem sequence_equal_spec (k : Nat) (hk : 0 < k) (H : History) (hwf : WellFormed k H) :
+    sequenceEqual.run k H = sequenceEqualSpec k H := by
+  rw [sequence_equal_run_eq, sequence_equal_code_eq, zip_spec k hk _ (withEnd_wf _ H hwf), zipSpec,
+    beforeError_withEnd, columns_withEnd k _ (wellFormed_beforeError k H hwf), terminalOf_withEnd,
+    seqPost_rows_then, sequenceEqualSpec]
+  congr 1
+  simp only [terminalOf, allCompleted]
+  cases firstError H with
+  | some e => rfl
+  | none =>
+    simp only []
+    by_cases hc : (List.range k).all (completedIn H) = true <;> simp [hc, seqPost]
+
+
+end SeqEq
+
 section Examples
 private def n (i : Int) : Ev := .next (.int i)
 
@@ -2553,6 +2618,25 @@ example : WellFormed 2 [(0, n 1), (1, n 2), (0, .complete), (1, .complete)] ∧
     (∀ i, i < 2 → (srcItems i [(0, n 1), (1, n 2), (0, .complete), (1, .complete)]).length ≤ 1) ∧
     combineLatestCode.run 2 [(0, n 1), (1, n 2), (0, .complete), (1, .complete)] =
       [tupleEv [.int 1, .int 2], .complete] := by decide
+/-! sequence_equal after the repair: a=1, a completes, b=1, b=2: undecided after `b 1`, `false` at `b 2` (b's second
+    item meets a's end); equal sequences ⇒ `true` at the last completion; two empty sequences ⇒ `true`; an error first
+    ⇒ that error; three sources: the position must be reached by all of them -/
+example : WellFormed 2 [(0, n 1), (0, .complete), (1, n 1), (1, n 2), (1, .complete)] ∧
+    sequenceEqual.run 2 [(0, n 1), (0, .complete), (1, n 1)] = [] ∧
+    sequenceEqual.run 2 [(0, n 1), (0, .complete), (1, n 1), (1, n 2)] = [.next (.bool false), .complete] ∧
+    sequenceEqualSpec 2 [(0, n 1), (0, .complete), (1, n 1), (1, n 2)] = [.next (.bool false), .complete] ∧
+    sequenceEqual.run 2 [(0, n 1), (0, .complete), (1, n 1), (1, n 2), (1, .complete)] =
+      [.next (.bool false), .complete] := by decide
+example : WellFormed 2 [(0, n 1), (1, n 1), (0, .complete), (1, .complete)] ∧
+    sequenceEqual.run 2 [(0, n 1), (1, n 1), (0, .complete), (1, .complete)] = [.next (.bool true), .complete] ∧
+    sequenceEqualSpec 2 [(0, n 1), (1, n 1), (0, .complete), (1, .complete)] = [.next (.bool true), .complete] ∧
+    sequenceEqual.run 2 [(0, .complete), (1, .complete)] = [.next (.bool true), .complete] ∧
+    sequenceEqual.run 2 [(0, n 1), (1, .error 7), (0, .complete)] = [.error 7] ∧
+    sequenceEqualSpec 2 [(0, n 1), (1, .error 7), (0, .complete)] = [.error 7] := by decide
+example : WellFormed 3 [(0, n 1), (1, n 2), (2, n 1)] ∧
+    sequenceEqual.run 3 [(0, n 1), (1, n 2)] = [] ∧
+    sequenceEqual.run 3 [(0, n 1), (1, n 2), (2, n 1)] = [.next (.bool false), .complete] ∧
+    sequenceEqualSpec 3 [(0, n 1), (1, n 2), (2, n 1)] = [.next (.bool false), .complete] := by decide
 end Examples
 
 #print axioms merge_spec
@@ -2566,7 +2650,6 @@ end Examples
 #print axioms zipRows_getElem?
 #print axioms zip_completion_late
 #print axioms combine_latest_violated
-#print axioms sequence_equal_violated
 #print axioms skip_until_spec
 #print axioms sample_spec
 #print axioms flat_map_spec
@@ -2574,7 +2657,8 @@ end Examples
 #print axioms combine_latest_is_zip
 #print axioms combine_latest_single_item_partial
 #print axioms sequence_equal_code_eq
-#print axioms sequence_equal_same_length_partial
+#print axioms sequence_equal_run_eq
+#print axioms sequence_equal_spec
 #print axioms ready_set_go_run
 #print axioms ready_set_go_no_loss
 #print axioms ready_set_go_all
